@@ -4,7 +4,6 @@ import (
 	"fmt"
 	"go/ast"
 	"go/token"
-	"go/types"
 	"strings"
 
 	"siotcheck/kit"
@@ -16,67 +15,31 @@ import (
 // address arithmetic or the loop bound), once each and in this order, before
 // a normal response is returned.
 
-// wordVar finds the variable read big-endian from request bytes lo..hi-1 in an arm.
-func (m *mbModel) wordVar(arm *mbArm, lo, hi int64) (types.Object, *ast.AssignStmt) {
-	info := m.Req.Info()
-	var obj types.Object
-	var def *ast.AssignStmt
-	ast.Inspect(arm.Clause, func(n ast.Node) bool {
-		as, ok := n.(*ast.AssignStmt)
-		if !ok || len(as.Lhs) != 1 || len(as.Rhs) != 1 || obj != nil {
-			return true
-		}
-		call, ok := ast.Unparen(as.Rhs[0]).(*ast.CallExpr)
-		if !ok || len(call.Args) != 1 {
-			return true
-		}
-		name, order, _, isBO := kit.ByteOrderCall(info, call)
-		if !isBO || name != "Uint16" || order != "big" {
-			return true
-		}
-		se, ok := ast.Unparen(call.Args[0]).(*ast.SliceExpr)
-		if !ok || !m.isReqData(m.Req, se.X) || se.High == nil {
-			return true
-		}
-		l := int64(0)
-		if se.Low != nil {
-			v, isC := kit.ConstInt(info, se.Low)
-			if !isC {
-				return true
-			}
-			l = v
-		}
-		h, isC := kit.ConstInt(info, se.High)
-		if !isC || l != lo || h != hi {
-			return true
-		}
-		obj, def = kit.ObjOf(info, as.Lhs[0]), as
-		return true
-	})
-	return obj, def
-}
-
 func c18Range(c *kit.Ctx, m *mbModel, r *kit.Rule) {
-	f := m.Req
-	info := f.Info()
-	bnd := kit.AnalyseBounds(c.P, f)
 	for _, arm := range m.Arms {
 		if len(arm.Codes) == 0 || mbQuantityLimit[arm.Codes[0]] == 0 {
 			continue
 		}
 		limit := mbQuantityLimit[arm.Codes[0]]
-		o := r.Ob(f, arm.Clause, arm.label()+": addressed range", "a normal response is returned only after the provider was asked for exactly address, address+1, …, address+quantity-1 (no wrap-around), once each and in order")
+		o := r.Ob(m.Req, arm.Clause, arm.label()+": addressed range", "a normal response is returned only after the provider was asked for exactly address, address+1, …, address+quantity-1 (no wrap-around), once each and in order")
 		q := m.quantityOf(arm)
-		addr, addrDef := m.wordVar(arm, 0, 2)
+		afn, _, addr, _, addrLhs := m.wordDef(arm, 0, 2)
 		if q == nil || addr == nil {
 			o.Undecided("address (bytes 0..1) or quantity (bytes 2..3) of the request not found in %s", arm.label())
 			continue
 		}
+		if afn != q.fn {
+			o.Undecided("address and quantity are read in different functions")
+			continue
+		}
+		f := q.fn
+		info := f.Info()
+		bnd := kit.AnalyseBounds(c.P, f)
 		// ---- symbolic: loop from c0 to B accessing i+K with c0+K = address, B+K = address+quantity
 		symbolic := ""
 		func() {
 			var loops []*ast.ForStmt
-			ast.Inspect(arm.Clause, func(n ast.Node) bool {
+			ast.Inspect(q.region, func(n ast.Node) bool {
 				if fs, ok := n.(*ast.ForStmt); ok {
 					loops = append(loops, fs)
 				}
@@ -165,8 +128,8 @@ func c18Range(c *kit.Ctx, m *mbModel, r *kit.Rule) {
 			c0 := linAt(initRhs, fs.Init)
 			B := linAt(b, fs.Cond)
 			arg := linAt(calls[0].Args[0], calls[0])
-			at := linAt(addrDef.Lhs[0], fs.Cond)
-			qt := linAt(q.def.Lhs[0], fs.Cond)
+			at := linAt(addrLhs, fs.Cond)
+			qt := linAt(q.lhs, fs.Cond)
 			if it == nil || c0 == nil || B == nil || arg == nil || at == nil || qt == nil {
 				symbolic = "loop bounds or the accessed address are not trackable"
 				return
@@ -235,11 +198,11 @@ func c18Range(c *kit.Ctx, m *mbModel, r *kit.Rule) {
 					if _, _, isExc := m.exitExc(e); isExc {
 						continue
 					}
-					if len(e.Ret.Results) == 0 || !kit.IsNilIdent(info, e.Ret.Results[len(e.Ret.Results)-1]) {
+					if len(e.Ret.Results) == 0 || !kit.IsNilIdent(m.Req.Info(), e.Ret.Results[len(e.Ret.Results)-1]) {
 						continue // an error return (short request)
 					}
 					if e.Tainted {
-						o.Undecided("address %d quantity %d: exit at %s depends on a value the evaluator cannot follow", rq.a, rq.n, f.At(e.Ret))
+						o.Undecided("address %d quantity %d: exit at %s depends on a value the evaluator cannot follow", rq.a, rq.n, m.Req.At(e.Ret))
 						decided = true
 						break
 					}
